@@ -43,6 +43,9 @@ structure Obs where
   deriving Repr
 
 def Obs.ran (o : Obs) : Bool := o.runs > 0
+/-- the context the call passes is already dead when the call starts: cancelled (`cx=2`) or past its deadline (`cx=3`);
+the cache lookup inside a flight it leads fails. -/
+def Obs.deadCtx (o : Obs) : Bool := o.cx = 2 || o.cx = 3
 /-- ResourceManager: this call's `create` ran and succeeded (scripted: no error, no panic). -/
 def Obs.created (o : Obs) : Bool := o.runs > 0 && (!o.serr || o.ek = 5) && !o.spanic
 /-- the loader failed with an error that is handed to the overlapping callers and not cached. -/
@@ -150,8 +153,8 @@ def lookupErrViolation (h : List Obs) (r : Obs) : Option String :=
   if !r.lkerr then none
   else if r.ran then some s!"rm-error: the loader of call {r.id} (key {r.key}) ran although the call returned its flight's lookup error"
   else if r.val.isSome || r.err.isSome then some s!"rm: call {r.id} returned a lookup error and something else"
-  else if r.cx = 2 then none
-  else if h.any (fun l => l.id ≠ r.id && l.key = r.key && l.cx = 2 && l.lkerr && !l.ran && callsOverlap l r) then none
+  else if r.deadCtx then none
+  else if h.any (fun l => l.id ≠ r.id && l.key = r.key && l.deadCtx && l.lkerr && !l.ran && callsOverlap l r) then none
   else some (s!"rm-error: call {r.id} (key {r.key}) got a lookup (context) error although neither its own context was cancelled " ++
              "nor that of an overlapping flight leader it could have joined")
 
